@@ -368,7 +368,10 @@ static bool convert_pp_int(Token *tok) {
     base = 8;
   }
 
+  // strtoul returns ULONG_MAX for a digit sequence of 2^64 and above.
+  errno = 0;
   int64_t val = strtoul(p, &p, base);
+  bool overflow = (errno == ERANGE);
 
   // Read U, L or LL suffixes.
   bool l = false;
@@ -396,6 +399,9 @@ static bool convert_pp_int(Token *tok) {
 
   if (p != tok->loc + tok->len)
     return false;
+
+  if (overflow)
+    error_tok(tok, "integer constant is too large");
 
   // Infer a type.
   Type *ty;
